@@ -1029,10 +1029,16 @@ def install(interp):
             raise Unsupported("islice with start/step on symbolic operands")
         n = a[0]
         out = []
-        for i, x in enumerate(interp_.iterate(it)):
-            if not interp_.truth(V.compare("<", i, n)):
+        src = iter(interp_.iterate(it))
+        i = 0
+        while interp_.truth(V.compare("<", i, n)):       # like islice: never pulls more than n items from the source
+            try:
+                out.append(next(src))
+            except StopIteration:
                 break
-            out.append(x)
+            i += 1
+            if i > interp_.loop_bound:
+                interp_.bound_hit("islice with a symbolic count needs more than %d steps" % interp_.loop_bound)
         return iter(out)
     tm[_it.islice] = m_islice
     import inspect as _inspect
